@@ -338,12 +338,16 @@ impl FrameDescriptionEntry {
             w.write_udata(self.length.into(), encoding.address_size)?;
         }
 
+        // The LSDA is written if and only if the CIE says how to encode it.
+        if self.lsda.is_some() != cie.lsda_encoding.is_some() {
+            return Err(Error::InvalidAddress);
+        }
+
         if cie.has_augmentation() {
             let augmentation_length_offset = w.len();
             w.write_u8(0)?;
             let augmentation_length_base = w.len();
 
-            debug_assert_eq!(self.lsda.is_some(), cie.lsda_encoding.is_some());
             if let (Some(lsda), Some(lsda_encoding)) = (self.lsda, cie.lsda_encoding) {
                 w.write_eh_pointer(lsda, lsda_encoding, encoding.address_size)?;
             }
